@@ -262,7 +262,11 @@ impl JxlImageBuilder {
             }
         };
 
-        while !image.inner.end_of_image {
+        // Boxes may follow the last codestream box of a container; keep reading those so that
+        // they are not reported truncated (or lost) after `finalize()`.
+        while !image.inner.end_of_image
+            || image.reader.kind() == jxl_bitstream::BitstreamKind::Container
+        {
             let count = reader.read(&mut buf[buf_valid..])?;
             if count == 0 {
                 break;
